@@ -245,6 +245,9 @@ func TestVerifC02(t *testing.T) {
 		c02Tsys("async-tdc-udp-c3-reorder", tOpt{Kind: "tdc-udp", Callers: 3, Srv: srvOpt{Reorder: true, Dup: 1}, CtxMode: []int{1, 1, 1}}, pp2),
 		c02Tsys("async-tdc-udp-c1-slow1300ms", tOpt{Kind: "tdc-udp", Callers: 1, Srv: srvOpt{AnswerAll: true, Delay: 1300 * time.Millisecond}, CtxMode: []int{1}}, p1),
 		c02Tsys("async-pipeline-udp-c2-slow1300ms", tOpt{Kind: "pipeline-udp", Callers: 2, Srv: srvOpt{AnswerAll: true, Delay: 1300 * time.Millisecond}, CtxMode: []int{1, 1}}, pp2),
+		// a slow dial (4 s) and a slow server (2 s): together longer than the dial timeout, the caller's context is unbounded
+		c02Tsys("async-pipeline-tcp-c2-slowdial-slowsrv", tOpt{Kind: "pipeline-tcp", Callers: 2, MaxCq: 2, LazyQueue: 2, DialMenu: []int{5}, Srv: srvOpt{AnswerAll: true, Delay: 2 * time.Second}}, pp2),
+		c02Tsys("async-reuse-c1-slowdial-slowsrv", tOpt{Kind: "reuse", Callers: 1, DialMenu: []int{5}, Srv: srvOpt{AnswerAll: true, Delay: 2 * time.Second}}, p2),
 		c02Tsys("async-tdc-udp-c2-runt", tOpt{Kind: "tdc-udp", Callers: 2, Srv: srvOpt{Reorder: true, Short: true}, CtxMode: []int{1, 1}}, p2),
 		c02Tsys("async-reuse-c2-seq2", tOpt{Kind: "reuse", Callers: 2, Seq: 2, Srv: srvOpt{CloseBudget: 1, CloseAfterAnswerOnly: true}, CtxMode: []int{1, 1}}, pp2),
 	}
